@@ -165,3 +165,18 @@ Proof.
   rewrite B_from0 by lia. rewrite firstn_all2 by (rewrite msb_bits_length; unfold zlen; lia).
   now rewrite encB_whole.
 Qed.
+
+(** * explicit values *)
+Lemma B_length s f t : 0 <= f <= t -> t <= 8 * zlen s -> zlen (B s f t) = t - 8 * (f / 8).
+Proof.
+  intros H Ht. unfold B, zlen in *. rewrite firstn_length, skipn_length, msb_bits_length.
+  assert (0 <= 8 * (f / 8) <= f) by (Z.div_mod_to_equations; lia). lia.
+Qed.
+
+Lemma Len_New_value s f t : bytes_ok s -> 0 <= f <= t -> t <= 8 * zlen s ->
+  match New s f t with Some e => Len e | None => None end = Some (t - 8 * (f / 8)).
+Proof. intros Hs H Ht. rewrite Len_New by assumption. unfold spec_Len. f_equal. now apply B_length. Qed.
+
+Lemma StrCmpUpto_encB a b : bytes_ok a ->
+  StrCmpUpto a (encB b) = Some (cmp_sign (bits_cmp (upto a b) b)).
+Proof. intros Ha. rewrite StrCmpUpto_eq. now apply CmpUpto_encB. Qed.
